@@ -121,7 +121,13 @@ class DeserializationRecursiveChecker(
 class SerializationRecursiveChecker(
     SerializationVisitor, SerializationObjectVisitor, RecursiveChecker[Serialization]
 ):
-    pass
+    def object(self, tp: AnyType, fields: Sequence[ObjectField]):
+        from apischema.serialization.serialized_methods import get_serialized_methods
+
+        super().object(tp, fields)
+        # serialized methods are serialized with the fields
+        for serialized, types in get_serialized_methods(tp):
+            self.visit_with_conv(types["return"], serialized.conversion)
 
 
 @cache  # use @cache for reset
